@@ -1,6 +1,7 @@
 (* C13 property theorems. Nothing but statements closed by [exact]/projection and Print Assumptions. *)
 From VF Require Import Common.Base.
 From VF Require C13.ShardRW C13.Proofs C13.PoolModel C13.PoolHist C13.ProofsPool C13.Check.
+From VF Require C13.Dequeue C13.ProofsDequeue C13.ProofsDequeueLink.
 
 (* syncx.RWMutex: for every number k >= 1 of shards, every number of threads and every schedule of the
    per-shard acquisition / release steps: never a writer past its last acquire together with a reader
@@ -43,6 +44,107 @@ Proof. exact ProofsPool.pool_hist_b_ok_proof. Qed.
 Theorem C13_stamps_distinct_b_ok : forall h, stamps_distinct_b h = true <-> StampsDistinct h.
 Proof. exact ProofsPool.stamps_distinct_ok. Qed.
 
+(* poolDequeue (poolqueue.go): the lock-free ring behind a P's chains, as a small-step system - shared
+   head/tail (the two halves of the packed word, arithmetic mod 2^32), slots (nil / block pointer), ONE
+   producer running pushHead / popHead calls and T thieves running popTail, every atomic load, CAS,
+   fetch-add, slot read, slot store a separate step - for EVERY ring size n (1 <= n <= 2^30, n | 2^32: every
+   power of two the code can allocate), every T, every initial index h0 (so the 2^32 wrap is covered) and
+   EVERY schedule:
+   (A) atomicity: the calls in the order of their linearization points (pushHead: the fetch-add; popHead /
+   popTail: the successful CAS, or the load that sees head = tail) form a legal history of the sequential
+   list deque ending in the abstract contents [abs]; a completed call returned exactly what was decided at
+   its linearization point (the slot read happens later); every step is abstractly silent or exactly one
+   sequential deque operation.  pushHead may fail spuriously (logged with no effect). *)
+Theorem C13_dequeue_atomic : forall n T h0 sched, ProofsDequeue.good_params n h0 ->
+  let st := Dequeue.run (Dequeue.init n T h0) sched in
+  Dequeue.seq_run [] (map snd (Dequeue.glog st)) (Dequeue.abs st) /\
+  (forall t e k, In (t, e, k) (Dequeue.trace st) -> nth_error (Dequeue.glog st) k = Some (t, e)) /\
+  Permutation (map snd (Dequeue.trace st) ++ Dequeue.pending_k st) (seq 0 (length (Dequeue.glog st))) /\
+  NoDup (map snd (Dequeue.trace st)) /\
+  ProofsDequeue.pending_logged st /\
+  (forall l, ProofsDequeue.lin_step st l).
+Proof. exact ProofsDequeue.linearizable. Qed.
+(* (B) ownership: values returned by completed pops + values held by pops past their CAS + the contents
+   are a permutation of the values of the completed pushes: a block pushed once is popped at most once,
+   by exactly one of popHead / popTail; nothing is invented or lost *)
+Theorem C13_dequeue_ownership : forall n T h0 sched, ProofsDequeue.good_params n h0 ->
+  let st := Dequeue.run (Dequeue.init n T h0) sched in
+  Permutation (Dequeue.popped (Dequeue.trace st) ++ Dequeue.pending st ++ Dequeue.abs st)
+              (Dequeue.pushed (Dequeue.trace st)).
+Proof. exact ProofsDequeue.ownership. Qed.
+(* (C) slot ownership: head - tail (mod 2^32) is the number of stored blocks and never exceeds n (no
+   overflow, together with the slots thieves still hold: C13_dequeue_occupancy); the live slots hold the
+   contents; a thief between its CAS and its nil store owns its slot exclusively (the slot still holds
+   the block decided at the CAS, lies outside the live window, no other thief and not the producer -
+   neither popping nor filling - is on it); the producer stores only into a nil slot outside the window *)
+Theorem C13_dequeue_safety : forall n T h0 sched, ProofsDequeue.good_params n h0 ->
+  let st := Dequeue.run (Dequeue.init n T h0) sched in
+  (Dequeue.sz st = n /\ Z.of_nat (length (Dequeue.vals st)) = n) /\
+  (0 <= Dequeue.head st < Dequeue.M32 /\ 0 <= Dequeue.tail st < Dequeue.M32)%Z /\
+  (((Dequeue.head st - Dequeue.tail st) mod Dequeue.M32 = Z.of_nat (length (Dequeue.abs st)))%Z /\
+   (Z.of_nat (length (Dequeue.abs st)) + ProofsDequeue.ex (Dequeue.prod st) <= n)%Z) /\
+  ProofsDequeue.window_holds st /\ ProofsDequeue.thief_safe st /\ ProofsDequeue.pop_safe st /\ ProofsDequeue.push_safe st.
+Proof. exact ProofsDequeue.safety. Qed.
+Theorem C13_dequeue_occupancy : forall n T h0 sched, ProofsDequeue.good_params n h0 ->
+  let st := Dequeue.run (Dequeue.init n T h0) sched in
+  (Z.of_nat (length (Dequeue.abs st)) + Z.of_nat (length (flat_map Dequeue.tpend (Dequeue.thieves st)))
+   + ProofsDequeue.ex (Dequeue.prod st) <= n)%Z.
+Proof. exact ProofsDequeue.occupancy_bound. Qed.
+(* pushHead's second check fails only when the ring is full or a thief has not released that slot yet *)
+Theorem C13_dequeue_push_fail_reason : forall n T h0 sched v h y, ProofsDequeue.good_params n h0 ->
+  let st := Dequeue.run (Dequeue.init n T h0) sched in
+  Dequeue.prod st = Dequeue.PP2 v h -> Dequeue.rd (Dequeue.vals st) (h mod n)%Z = Some y ->
+  Z.of_nat (length (Dequeue.abs st)) = n \/
+  (exists j s p x, nth_error (Dequeue.thieves st) j = Some s /\ Dequeue.towned s = Some ((h mod n)%Z, p, x)).
+Proof. exact ProofsDequeue.push_fail_reason. Qed.
+(* the ghost components (abstract contents, log, unbounded indices) never influence memory, registers or
+   results: erasing them gives the run of the ghost-free machine *)
+Theorem C13_dequeue_ghost_free : forall sched n T h0,
+  Dequeue.rrun (Dequeue.rinit n T h0) sched = Dequeue.erase (Dequeue.run (Dequeue.init n T h0) sched).
+Proof. exact ProofsDequeue.erase_run. Qed.
+(* the pair (head, tail) is the packed 64-bit word of the code: round trip, the fetch-add of 1<<32, the
+   two CAS words; 2^k sizes are admissible and `& (2^k - 1)` is `mod 2^k` *)
+Theorem C13_dequeue_word :
+  (forall h t, (0 <= h < Dequeue.M32)%Z -> (0 <= t < Dequeue.M32)%Z -> Dequeue.unpack (Dequeue.pack h t) = (h, t)) /\
+  (forall w, (0 <= w < Dequeue.M64)%Z ->
+     Dequeue.pack (fst (Dequeue.unpack w)) (snd (Dequeue.unpack w)) = w /\
+     (0 <= fst (Dequeue.unpack w) < Dequeue.M32)%Z /\ (0 <= snd (Dequeue.unpack w) < Dequeue.M32)%Z) /\
+  (forall h t, (0 <= h < Dequeue.M32)%Z -> (0 <= t < Dequeue.M32)%Z ->
+     Dequeue.add_head (Dequeue.pack h t) = Dequeue.pack ((h + 1) mod Dequeue.M32)%Z t) /\
+  (forall h t, (0 <= h < Dequeue.M32)%Z -> (0 <= t < Dequeue.M32)%Z ->
+     Dequeue.unpack (Dequeue.pack ((h - 1) mod Dequeue.M32)%Z t) = (((h - 1) mod Dequeue.M32)%Z, t) /\
+     Dequeue.unpack (Dequeue.pack h ((t + 1) mod Dequeue.M32)%Z) = (h, ((t + 1) mod Dequeue.M32)%Z)) /\
+  (forall k h0, (0 <= k <= 30)%Z -> (0 <= h0 < Dequeue.M32)%Z -> ProofsDequeue.good_params (2 ^ k)%Z h0) /\
+  (forall h k, (0 <= k)%Z -> Z.land h (2 ^ k - 1) = (h mod 2 ^ k)%Z).
+Proof.
+  exact (conj ProofsDequeue.unpack_pack (conj ProofsDequeue.pack_unpack (conj ProofsDequeue.add_head_spec
+        (conj ProofsDequeue.cas_words (conj ProofsDequeue.pow2_good ProofsDequeue.mask_is_mod))))).
+Qed.
+(* link to PoolModel: the sequential deque steps are PoolModel's list operations on a chain of blocks
+   (pushHead = cons, popHead = first element, popTail = split_last), so the order-of-linearization-points
+   log of every reachable state is a run of those list operations ending in the abstract contents *)
+Theorem C13_dequeue_poolmodel : forall n T h0 sched, ProofsDequeue.good_params n h0 ->
+  let st := Dequeue.run (Dequeue.init n T h0) sched in
+  ProofsDequeueLink.poolmodel_run [] (map snd (Dequeue.glog st)) (Dequeue.abs st).
+Proof. exact ProofsDequeueLink.dequeue_refines_poolmodel_list. Qed.
+
+(* non-vacuity of the dequeue theorems: a ring of 2 whose last block producer and thief race for (one
+   wins, the other answers empty), a push that fails until the thief releases the slot, and a run across
+   the 2^32 wrap are the Examples at the end of ProofsDequeue.v; here: admissible parameters exist *)
+Example C13_dequeue_nonvacuous :
+  ProofsDequeue.good_params 8 0 /\ ProofsDequeue.good_params 1073741824 4294967295 /\
+  (let st := Dequeue.run (Dequeue.init 2 1 4294967295)
+       [Dequeue.LPush 7; Dequeue.LProd; Dequeue.LProd; Dequeue.LProd; Dequeue.LProd;
+        Dequeue.LPop; Dequeue.LProd; Dequeue.LThief 0; Dequeue.LThief 0; Dequeue.LProd; Dequeue.LProd;
+        Dequeue.LThief 0; Dequeue.LThief 0] in
+   map snd (Dequeue.glog st) = [Dequeue.EPush 7 true; Dequeue.EPopTail (Dequeue.Got (Some 7)); Dequeue.EPopHead Dequeue.Empty]
+   /\ Dequeue.abs st = [] /\ Dequeue.head st = 0%Z /\ Dequeue.tail st = 0%Z).
+Proof.
+  split; [exact (ProofsDequeue.pow2_good 3 0 ltac:(lia) ltac:(rewrite ProofsDequeue.M32_val; lia))|].
+  split; [exact (ProofsDequeue.pow2_good 30 4294967295 ltac:(lia) ltac:(rewrite ProofsDequeue.M32_val; lia))|].
+  vm_compute. repeat split; reflexivity.
+Qed.
+
 (* non-vacuity: a disciplined schedule with an overflowing block, a steal, a gc and a re-allocation;
    a history satisfying the clauses and three violating one clause each; a reachable writer-inside state *)
 Example C13_nonvacuous :
@@ -69,3 +171,11 @@ Print Assumptions C13_rw_writers_no_cycle.
 Print Assumptions C13_pool_ownership.
 Print Assumptions C13_pool_hist_b_ok.
 Print Assumptions C13_stamps_distinct_b_ok.
+Print Assumptions C13_dequeue_atomic.
+Print Assumptions C13_dequeue_ownership.
+Print Assumptions C13_dequeue_safety.
+Print Assumptions C13_dequeue_occupancy.
+Print Assumptions C13_dequeue_push_fail_reason.
+Print Assumptions C13_dequeue_ghost_free.
+Print Assumptions C13_dequeue_word.
+Print Assumptions C13_dequeue_poolmodel.
